@@ -8,7 +8,7 @@ from hypothesis import strategies as st
 
 from harness import gen
 from harness.build import build
-from harness.core import Abstain, Violation, case_hash
+from harness.core import Abstain, CaseTimeout, Violation, case_hash
 from harness.refsim import UNDEF, RefSim, const_value, freeze
 
 PROPERTY = "C31"
@@ -39,9 +39,20 @@ OS_PROF = gen.Profile(
 )
 
 
+def finite(p):
+    """finite state spaces (the wrapped planner must be exhaustive): every numeric fluent gets both bounds"""
+    for f in p["fluents"]:
+        t = f["type"]
+        if t != "bool" and t[0] in ("int", "real"):
+            lo = t[1] if t[1] is not None else (int(Fraction(str(t[2]))) - 5 if t[2] is not None else 0)
+            hi = t[2] if t[2] is not None else int(Fraction(str(lo))) + 5
+            f["type"] = [t[0], lo, hi]
+    return p
+
+
 @st.composite
 def cases(draw):
-    k = draw(st.sampled_from(["if", "if", "oversub"]))
+    k = draw(st.sampled_from(["if", "oversub"]))
     if k == "if":
         g = gen.Gen(draw, IF_PROF)
         p = g.problem()
@@ -82,7 +93,7 @@ def cases(draw):
             p["init"] = [e for e in p["init"] if e[0] != fl] + [[fl, ["b", goal[0] == "not"]]]
         elif not p["goals"]:
             p["goals"] = [g.bool_expr({"params": [], "vars": []}, 1)]
-        return {"kind": "if", "problem": p}
+        return {"kind": "if", "problem": finite(p)}
     g = gen.Gen(draw, OS_PROF)
     p = g.problem()
     top = {"params": [], "vars": []}
@@ -92,9 +103,22 @@ def cases(draw):
         if e in seen:
             continue
         seen.append(e)
-        goals.append([e, g.pick([1, 2, 3, -1, -2, 5, "1/2", "-3/2", 0])])
+        goals.append([e, g.pick([1, 2, 3, -1, -2, -1, 5, "1/2", "-3/2", 0])])
     p["metric"] = {"kind": "oversub", "goals": goals}
-    return {"kind": "oversub", "problem": p}
+    return {"kind": "oversub", "problem": finite(p)}
+
+
+def nested_ifn(x, inside=False):
+    """does the spec contain an interpreted-function call inside the arguments of another one?"""
+    if isinstance(x, dict):
+        return any(nested_ifn(v, inside) for v in x.values())
+    if isinstance(x, list):
+        if x and x[0] == "ifn":
+            if inside:
+                return True
+            return any(nested_ifn(v, True) for v in x[2:])
+        return any(nested_ifn(v, inside) for v in x)
+    return False
 
 
 def reachable(ref, cap=6000):
@@ -176,7 +200,7 @@ def check(ctx, case):
                 ctx.cls(f"unsupported:{kind}")
                 raise Abstain("unsupported-kind")
             res = planner.solve(problem)
-    except Abstain:
+    except (Abstain, CaseTimeout):
         raise
     except Exception as e:
         import traceback
@@ -214,7 +238,9 @@ def check(ctx, case):
                 ctx.abstain("wrapped-planner-inconclusive")
                 return
             sp = [[a.name, list(map(str, args))] for a, args in min((p for _, p in goal_states), key=len)]
-            raise Violation("solvable-problem-not-solved:if", f"{name} returned {res.status.name} but the problem is solvable, e.g. by {sp}", case)
+            # nested calls g(h(x)) have a root cause of their own (see known findings): separate signature
+            sig = "solvable-problem-not-solved:if" + (":nested-calls" if nested_ifn(case["problem"]) else "")
+            raise Violation(sig, f"{name} returned {res.status.name} but the problem is solvable, e.g. by {sp}", case)
         ctx.cls(f"if:{'solved' if positive else 'unsolvable'}:calls={min(ncalls, 4)}")
         if ncalls >= 2:
             ctx.nontriv(case_hash(case), {"kind": kind, "planner_calls": ncalls, "status": res.status.name})
@@ -262,7 +288,7 @@ def check(ctx, case):
 
 
 def shard(ctx):
-    ctx.run_hypothesis(cases(), lambda case: check(ctx, case), ctx.scale(1400, 16000))
+    ctx.run_hypothesis(cases(), lambda case: check(ctx, case), ctx.scale(2400, 24000))
 
 
 def replay(ctx, case):
